@@ -854,8 +854,8 @@ def r14h(ctx: Context) -> None:
             elif name in ("split", "rsplit"):
                 splitters += 1
                 sep = node.args[0] if node.args else None
-                if sep is not None and norm(sep).endswith("newline_character"):
-                    rule.ok(key, "split on ParserHelper.newline_character")
+                if sep is not None and (norm(sep).endswith("newline_character") or (isinstance(sep, ast.Constant) and sep.value == "\n")):
+                    rule.ok(key, "split on the newline character")
                 else:
                     rule.fail(key, where(func, node), f"{func.short} splits the document on '{norm(sep) if sep is not None else 'whitespace'}', not on the newline character")
     if splitters < 2:
